@@ -14,6 +14,7 @@ import (
 
 	"pgregory.net/rapid"
 	"verifharness/ref/fsx"
+	"verifharness/ref/model"
 	"verifharness/ref/par1ref"
 	"verifharness/ref/par2ref"
 	"verifharness/ref/run"
@@ -250,6 +251,43 @@ func check(c Case) (msg, key string) {
 		os.Remove(filepath.Join(dir, idxName))
 		expectV, expectR = -1, -1
 	}
+	if expectV >= 0 {
+		// derive the expected status from the model instead of from how the state was built
+		// (generated files may share content, so "deleted" slices can still exist elsewhere)
+		avail := c.N
+		if c.State == "noparity-damaged" || c.State == "noparity-intact" {
+			avail = 0
+		}
+		allIntact := true
+		for n, d := range orig {
+			if sd, ok := state[n]; !ok || !bytes.Equal(sd, d) {
+				allIntact = false
+			}
+		}
+		k := 0
+		decided := true
+		if c.Format == "par2" {
+			loc := model.Locate(S, scen.ProtOrder(orig, S), state)
+			k = len(model.Missing(loc.May))
+			decided = !loc.Ambiguous
+		} else {
+			for n, d := range orig {
+				if sd, ok := state[n]; !ok || !bytes.Equal(sd, d) {
+					k++
+				}
+			}
+		}
+		switch {
+		case allIntact:
+			expectV, expectR = 0, 0
+		case !decided:
+			expectV, expectR = -2, -2 // only the generic rules apply
+		case k <= avail:
+			expectV, expectR = 1, 0
+		default:
+			expectV, expectR = 2, 2
+		}
+	}
 	for _, n := range names {
 		if d, ok := state[n]; ok {
 			os.WriteFile(filepath.Join(dir, n), d, 0o644)
@@ -282,7 +320,7 @@ func check(c Case) (msg, key string) {
 	if expectV >= 0 && r.code != expectV {
 		return fmt.Sprintf("verify exited %d in state %q, want %d: %s", r.code, c.State, expectV, tail(r.out)), ""
 	}
-	if expectV < 0 && (r.code == 0 || r.code == 3) {
+	if expectV == -1 && (r.code == 0 || r.code == 3) {
 		return fmt.Sprintf("verify exited %d in state %q, want a failure status other than 3", r.code, c.State), ""
 	}
 	// repair
@@ -305,7 +343,7 @@ func check(c Case) (msg, key string) {
 		}
 		return fmt.Sprintf("repair exited %d in state %q, want %d: %s", r.code, c.State, expectR, tail(r.out)), k
 	}
-	if expectR < 0 && (r.code == 0 || r.code == 3) {
+	if expectR == -1 && (r.code == 0 || r.code == 3) {
 		return fmt.Sprintf("repair exited %d in state %q, want a failure status other than 3", r.code, c.State), ""
 	}
 	if expectR == 0 {
@@ -382,7 +420,7 @@ func TestCheck(t *testing.T) {
 			do(Case{Usage: append([]string{}, u...), Spell: i})
 		}
 	}
-	reps := cfg.N(4, 15)
+	reps := cfg.N(4, 10)
 	for rep := 0; rep < reps; rep++ {
 		for _, st := range states2 {
 			idx++
@@ -397,7 +435,7 @@ func TestCheck(t *testing.T) {
 			}
 		}
 	}
-	cfg.SetRapid(cfg.N(40, 800), 1)
+	cfg.SetRapid(cfg.N(40, 400), 1)
 	flag.Set("rapid.shrinktime", "5s")
 	rapid.Check(t, func(rt *rapid.T) {
 		format := rapid.SampledFrom([]string{"par2", "par1"}).Draw(rt, "format")
